@@ -188,46 +188,56 @@ theorem paragraphClose_tail {src k ls p} {sA sB : St} (h3 : SR src k ls p sA sB)
   · rw [if_neg hc, if_neg hc]
     exact S2.pure h4
 
-theorem paragraphClose_sim (src : Bytes) : CloseSim src .paragraph := by
-  intro k ls p node sA sB h
+/-- `paragraphParser.Close` on a node that is not raw (the driver calls it on Paragraph nodes only: `AInv.pk`). On a raw
+    node the trimming could empty a line, which the relation does not allow for raw nodes (`NodeRel.rawNE`). -/
+theorem paragraphClose_sim' (src : Bytes) : ∀ k ls p node sA sB, SR src k ls p sA sB →
+    rawK (sA.nodes.getD node default).kind = false →
+    S2 (fun _ _ sA' sB' => SR src k ls p sA' sB') (bpClose .paragraph node sA) (bpClose .paragraph (node + 1) sB) := by
+  intro k ls p node sA sB h hnr
   show S2 _ (paragraphClose node sA) (paragraphClose (node + 1) sB)
   unfold paragraphClose
-  refine S2.bind (getNode_s2 h node) (fun a b sA1 sB1 hq => ?_)
-  obtain ⟨hab, h1⟩ := hq
-  refine S2.bind (source_s2 h1) (fun sa sb sA2 sB2 hq => ?_)
-  obtain ⟨ha, hb, h2⟩ := hq
-  rw [ha, hb]
+  have eA : getNode node sA = .ok (sA.nodes.getD node default, sA) := rfl
+  have eB : getNode (node + 1) sB = .ok (sB.nodes.getD (node + 1) default, sB) := rfl
+  rw [bind_run eA, bind_run eB]
+  have hab := h.n.node node
+  have esA : source sA = .ok (sA.r.source, sA) := rfl
+  have esB : source sB = .ok (sB.r.source, sB) := rfl
+  rw [bind_run esA, bind_run esB, h.r.a.source, h.r.b.source]
   rw [SegsRel.length hab.lines]
-  by_cases hc : (a.lines.length != 0) = true
+  by_cases hc : ((sA.nodes.getD node default).lines.length != 0) = true
   · rw [if_pos hc, if_pos hc]
-    refine S2.bind (P := fun x y sA' sB' => SegsRel src x y ∧ SR src k ls p sA' sB')
+    refine S2.bind (P := fun x y sA' sB' => SegsRel src x y ∧ sA' = sA ∧ sB' = sB)
       (S2.liftE (fun x hx => ?_)) (fun x y sA4 sB4 hq => ?_)
     · obtain ⟨y, hy, hxy⟩ := trimLeftAll_q hab.lines x hx
-      exact ⟨y, hy, hxy, h2⟩
-    · obtain ⟨hxy, h4⟩ := hq
+      exact ⟨y, hy, hxy, rfl, rfl⟩
+    · obtain ⟨hxy, e1, e2⟩ := hq
+      subst e1 e2
       rw [SegsRel.length hxy]
-      refine S2.bind (P := fun x' y' sA' sB' => SegRel src x' y' ∧ SR src k ls p sA' sB')
+      refine S2.bind (P := fun x' y' sA' sB' => SegRel src x' y' ∧ sA' = sA4 ∧ sB' = sB4)
         (S2.liftE (fun x' hx' => ?_)) (fun x' y' sA5 sB5 hq => ?_)
       · obtain ⟨y', hy', hxy'⟩ := lineAt_q hxy _ x' hx'
-        exact ⟨y', hy', hxy', h4⟩
-      · obtain ⟨hxy', h5⟩ := hq
+        exact ⟨y', hy', hxy', rfl, rfl⟩
+      · obtain ⟨hxy', e1, e2⟩ := hq
+        subst e1 e2
         obtain ⟨k1, ls1, hl, g1, g2, g3, hb1⟩ := hxy'
         subst hb1
         obtain ⟨t, e1, e2, t1, t2, t3⟩ := trimRightSpace_q (s := x') ⟨hl, g1, g2, g3⟩
-        refine S2.bind (P := fun x'' y'' sA' sB' => SegRel src x'' y'' ∧ SR src k ls p sA' sB')
+        refine S2.bind (P := fun x'' y'' sA' sB' => SegRel src x'' y'' ∧ sA' = sA5 ∧ sB' = sB5)
           (S2.liftE (fun x'' hx'' => ?_)) (fun x'' y'' sA6 sB6 hq => ?_)
         · rw [e1] at hx''; cases hx''
-          exact ⟨shK k1 t, e2, ⟨k1, ls1, hl, by omega, t3, by omega, rfl⟩, h5⟩
-        · obtain ⟨hxy'', h6⟩ := hq
-          refine S2.bind (P := fun x3 y3 sA' sB' => SegsRel src x3 y3 ∧ SR src k ls p sA' sB')
+          exact ⟨shK k1 t, e2, ⟨k1, ls1, hl, by omega, t3, by omega, rfl⟩, rfl, rfl⟩
+        · obtain ⟨hxy'', e1, e2⟩ := hq
+          subst e1 e2
+          refine S2.bind (P := fun x3 y3 sA' sB' => SegsRel src x3 y3 ∧ sA' = sA6 ∧ sB' = sB6)
             (S2.liftE (fun x3 hx3 => ?_)) (fun x3 y3 sA7 sB7 hq => ?_)
           · obtain ⟨y3, hy3, hxy3⟩ := lineSet_q hxy _ hxy'' x3 hx3
-            exact ⟨y3, hy3, hxy3, h6⟩
-          · obtain ⟨hxy3, h7⟩ := hq
-            refine S2.bind (modNode_s2 h7 node _ _ (fun a b hab => ?_)) (fun _ _ sA8 sB8 h8 => ?_)
-            · exact { hab with lines := hxy3 }
+            exact ⟨y3, hy3, hxy3, rfl, rfl⟩
+          · obtain ⟨hxy3, e1, e2⟩ := hq
+            subst e1 e2
+            refine S2.bind (modNode_s2' h node _ _ (fun hab' => ?_)) (fun _ _ sA8 sB8 h8 => ?_)
+            · exact { hab' with lines := hxy3, rawNE := fun hr => by rw [hnr] at hr; cases hr }
             · exact paragraphClose_tail h8 node
   · rw [if_neg hc, if_neg hc]
-    exact paragraphClose_tail h2 node
+    exact paragraphClose_tail h node
 
 end GM.Blocks
